@@ -5,7 +5,7 @@ set_option linter.unusedSectionVars false
 set_option linter.unusedSimpArgs false
 
 variable {K A F N C S H : Type} [DecidableEq K] [DecidableEq S] [DecidableEq N] [DecidableEq H]
-variable (fx : Facts) (exec : A → List (N × C) → C) (ruleSer : A → S) (pathSer : C → H)
+variable (fx : Facts) (mv : C → C → C) (exec : A → List (N × C) → C) (ruleSer : A → S) (pathSer : C → H)
 
 /-- The target's stamp in plz-out describes exactly its current definition and current inputs. -/
 def Fresh (r : Repo K A F N C) (out : Out K C S N H) (t : Target K A F) : Prop :=
@@ -15,7 +15,7 @@ theorem stampEq_refl (a : Stamp S N H) : stampEq fx a a = true := by
   simp [stampEq]
 
 theorem buildOne_noop (r : Repo K A F N C) (out : Out K C S N H) (t : Target K A F)
-    (h : Fresh ruleSer pathSer r out t) : buildOne fx exec ruleSer pathSer r out t = (out, false) := by
+    (h : Fresh ruleSer pathSer r out t) : buildOne fx mv exec ruleSer pathSer r out t = (out, false) := by
   obtain ⟨ins, c, hi, ho⟩ := h
   unfold buildOne
   simp [hi, ho, stampEq_refl]
@@ -42,7 +42,7 @@ theorem fresh_congr (r : Repo K A F N C) (out out' : Out K C S N H) (t : Target 
 
 theorem buildOne_key (hf : fx.cmpRule = true ∧ fx.cmpSource = true) (r : Repo K A F N C) (out : Out K C S N H) (t : Target K A F)
     (ins : List (N × C)) (hin : inputs r out t = some ins) :
-    ∃ c, (buildOne fx exec ruleSer pathSer r out t).1 t.key = some (c, stampOf ruleSer pathSer t.attrs ins) := by
+    ∃ c, (buildOne fx mv exec ruleSer pathSer r out t).1 t.key = some (c, stampOf ruleSer pathSer t.attrs ins) := by
   unfold buildOne
   rw [hin]
   simp only
@@ -55,17 +55,17 @@ theorem buildOne_key (hf : fx.cmpRule = true ∧ fx.cmpSource = true) (r : Repo 
     · rename_i hst
       rw [stampEq_iff fx hf] at hst
       exact ⟨c0, by show out t.key = _; rw [ho, hst]⟩
-    · exact ⟨if fx.keepOld && decide (pathSer c0 = pathSer (exec t.attrs ins)) then c0 else exec t.attrs ins, by simp⟩
+    · exact ⟨mv c0 (exec t.attrs ins), by simp⟩
 
 /-- After `buildOne`, the target is fresh (when its dependencies were present and it is not its own dependency). -/
 theorem buildOne_fresh (hf : fx.cmpRule = true ∧ fx.cmpSource = true) (r : Repo K A F N C) (out : Out K C S N H) (t : Target K A F)
     (hself : t.key ∉ t.deps) (ins : List (N × C)) (hin : inputs r out t = some ins) :
-    Fresh ruleSer pathSer r (buildOne fx exec ruleSer pathSer r out t).1 t := by
-  have hi' : inputs r (buildOne fx exec ruleSer pathSer r out t).1 t = some ins := by
+    Fresh ruleSer pathSer r (buildOne fx mv exec ruleSer pathSer r out t).1 t := by
+  have hi' : inputs r (buildOne fx mv exec ruleSer pathSer r out t).1 t = some ins := by
     rw [inputs_congr r out _ t]; exact hin
     intro d hd
-    exact buildOne_other fx exec ruleSer pathSer r out t d (fun e => hself (e ▸ hd))
-  obtain ⟨c, hc⟩ := buildOne_key fx exec ruleSer pathSer hf r out t ins hin
+    exact buildOne_other fx mv exec ruleSer pathSer r out t d (fun e => hself (e ▸ hd))
+  obtain ⟨c, hc⟩ := buildOne_key fx mv exec ruleSer pathSer hf r out t ins hin
   exact ⟨ins, c, hi', hc⟩
 
 theorem wf_selKeys_not_seen (sel : K → Bool) : ∀ (ts : List (Target K A F)) (seen : List K),
@@ -90,7 +90,7 @@ theorem wf_selKeys_not_seen (sel : K → Bool) : ∀ (ts : List (Target K A F)) 
 
 theorem buildList_frame (r : Repo K A F N C) (sel : K → Bool) :
     ∀ (ts : List (Target K A F)) (out : Out K C S N H) (k : K), k ∉ selKeys sel ts →
-      (buildList fx exec ruleSer pathSer r sel ts out).1 k = out k := by
+      (buildList fx mv exec ruleSer pathSer r sel ts out).1 k = out k := by
   intro ts
   induction ts with
   | nil => intro out k _; rfl
@@ -100,7 +100,7 @@ theorem buildList_frame (r : Repo K A F N C) (sel : K → Bool) :
     · simp only [selKeys, List.filter_cons, hs, if_true, List.map_cons, List.mem_cons, not_or] at hk
       simp only [buildList, hs, if_true]
       rw [ih _ k (by simpa [selKeys] using hk.2)]
-      exact buildOne_other fx exec ruleSer pathSer r out t k hk.1
+      exact buildOne_other fx mv exec ruleSer pathSer r out t k hk.1
     · simp only [Bool.not_eq_true] at hs
       simp only [buildList, hs]
       exact ih out k (by simpa [selKeys, List.filter_cons, hs] using hk)
@@ -110,8 +110,8 @@ theorem buildList_frame (r : Repo K A F N C) (sel : K → Bool) :
 theorem buildList_fresh (hf : fx.cmpRule = true ∧ fx.cmpSource = true) (r : Repo K A F N C) (sel : K → Bool) :
     ∀ (ts : List (Target K A F)) (seen : List K) (out : Out K C S N H),
       WFList sel seen ts → (∀ k ∈ seen, (out k).isSome) →
-      (∀ k ∈ seen ++ selKeys sel ts, ((buildList fx exec ruleSer pathSer r sel ts out).1 k).isSome) ∧
-      (∀ t ∈ ts, sel t.key = true → Fresh ruleSer pathSer r (buildList fx exec ruleSer pathSer r sel ts out).1 t) := by
+      (∀ k ∈ seen ++ selKeys sel ts, ((buildList fx mv exec ruleSer pathSer r sel ts out).1 k).isSome) ∧
+      (∀ t ∈ ts, sel t.key = true → Fresh ruleSer pathSer r (buildList fx mv exec ruleSer pathSer r sel ts out).1 t) := by
   intro ts
   induction ts with
   | nil => intro seen out _ hp; simpa [buildList, selKeys] using hp
@@ -137,11 +137,11 @@ theorem buildList_fresh (hf : fx.cmpRule = true ∧ fx.cmpSource = true) (r : Re
             exact ⟨(r.outName d, p.1) :: l, by simp [List.mapM_cons, hod, hl]⟩
       obtain ⟨l, hl⟩ := hdep t.deps hd
       have hin : inputs r out t = some (t.srcs.map (fun f => (r.fname f, r.files f)) ++ l) := by simp [inputs, hl]
-      have hfresh := buildOne_fresh fx exec ruleSer pathSer hf r out t hself _ hin
-      have hp' : ∀ k ∈ seen ++ [t.key], ((buildOne fx exec ruleSer pathSer r out t).1 k).isSome := by
+      have hfresh := buildOne_fresh fx mv exec ruleSer pathSer hf r out t hself _ hin
+      have hp' : ∀ k ∈ seen ++ [t.key], ((buildOne fx mv exec ruleSer pathSer r out t).1 k).isSome := by
         intro k hk
         rcases List.mem_append.mp hk with hks | hkt
-        · rw [buildOne_other fx exec ruleSer pathSer r out t k (fun e => hnew (e ▸ hks))]; exact hp k hks
+        · rw [buildOne_other fx mv exec ruleSer pathSer r out t k (fun e => hnew (e ▸ hks))]; exact hp k hks
         · have : k = t.key := by simpa using hkt
           subst this
           obtain ⟨_, c, _, ho⟩ := hfresh
@@ -157,9 +157,9 @@ theorem buildList_fresh (hf : fx.cmpRule = true ∧ fx.cmpSource = true) (r : Re
       · intro t' ht' hs'
         rcases List.mem_cons.mp ht' with rfl | ht'
         · apply fresh_congr ruleSer pathSer r _ _ t' _ _ hfresh
-          · exact buildList_frame fx exec ruleSer pathSer r sel ts _ _ (fun hm => hdisj _ hm (by simp))
+          · exact buildList_frame fx mv exec ruleSer pathSer r sel ts _ _ (fun hm => hdisj _ hm (by simp))
           · intro d hdm
-            exact buildList_frame fx exec ruleSer pathSer r sel ts _ _
+            exact buildList_frame fx mv exec ruleSer pathSer r sel ts _ _
               (fun hm => hdisj _ hm (List.mem_append_left _ (hd d hdm)))
         · exact h2 t' ht' hs'
     · simp only [Bool.not_eq_true] at hs
@@ -177,7 +177,7 @@ theorem buildList_fresh (hf : fx.cmpRule = true ∧ fx.cmpSource = true) (r : Re
 theorem buildList_all_fresh (r : Repo K A F N C) (sel : K → Bool) :
     ∀ (ts : List (Target K A F)) (out : Out K C S N H),
       (∀ t ∈ ts, sel t.key = true → Fresh ruleSer pathSer r out t) →
-      buildList fx exec ruleSer pathSer r sel ts out = (out, []) := by
+      buildList fx mv exec ruleSer pathSer r sel ts out = (out, []) := by
   intro ts
   induction ts with
   | nil => intro out _; rfl
@@ -185,7 +185,7 @@ theorem buildList_all_fresh (r : Repo K A F N C) (sel : K → Bool) :
     intro out h
     have ih' := ih out (fun t' ht' => h t' (List.mem_cons_of_mem _ ht'))
     by_cases hs : sel t.key = true
-    · have hn := buildOne_noop fx exec ruleSer pathSer r out t (h t (List.mem_cons_self ..) hs)
+    · have hn := buildOne_noop fx mv exec ruleSer pathSer r out t (h t (List.mem_cons_self ..) hs)
       simp [buildList, hs, hn, ih']
     · simp only [Bool.not_eq_true] at hs
       simp [buildList, hs, ih']
